@@ -7,6 +7,7 @@ from .data_types import (
     is_alias,
     is_composite_type,
     is_list_type,
+    is_map_type,
     is_nullable_type,
 )
 
@@ -233,8 +234,18 @@ class ApiNamespace:
                 return
             elif alias.namespace != self:
                 return
-            if is_alias(alias.data_type):
-                add_alias(alias.data_type)
+            # Aliases referenced directly or through lists, maps and
+            # nullables come first.
+            referenced = [alias.data_type]
+            while referenced:
+                data_type = referenced.pop()
+                if is_alias(data_type):
+                    add_alias(data_type)
+                elif is_list_type(data_type) or is_nullable_type(data_type):
+                    referenced.append(data_type.data_type)
+                elif is_map_type(data_type):
+                    referenced.append(data_type.value_data_type)
+                    referenced.append(data_type.key_data_type)
             linearized_aliases.append(alias)
             seen_aliases.add(alias)
 
